@@ -630,6 +630,7 @@ func (u *Unit) invoke(fr *Frame, st *State, cc *ssa.CallCommon, recv Val, args [
 		return res
 	}
 	fc.Used = true
+	u.assumedUsed["iface "+full]++
 	for i, p := range fc.Params {
 		if i < len(args) {
 			m[p] = args[i]
